@@ -110,7 +110,7 @@ class C06(Property):
     sys.unraisablehook = lambda *a: None
 
   def budget(self, tier):
-    return (80000, 60.0) if tier == "quick" else (12000000, 780.0)
+    return (200000, 60.0) if tier == "quick" else (12000000, 780.0)
 
   # ---------------------------------------------------------------- workload
   def gen_workload(self, W, index):
